@@ -9,6 +9,9 @@
 (*   UVar [t, name]        user subclass of Variable (decorated)           *)
 (*   USum [t, c]           user subclass of Sum (decorated)                *)
 (*   Arr [t, c]            numpy object array     MV [t, c]  MultiVector   *)
+(*   UNode [t, u, c]       instance of user node class number u of the     *)
+(*                         table in C04_UCls (rooted at Expression /       *)
+(*                         AlgebraicLeaf / Leaf), c = its expression fields *)
 (* Every node that is an object of its own carries an occurrence number    *)
 (* `id` (preorder, root = 1); omitted slice parts ([t |-> "None"]) do not. *)
 (***************************************************************************)
@@ -17,7 +20,7 @@ EXTENDS Integers, Sequences, FiniteSets, TLC
 LeafKinds == {"Var", "Const", "Wild", "FunctionSymbol", "NaN", "Str", "ULeaf", "UVar",
               "None", "Hole"}
 NaryKinds == {"Sum", "Product", "BitOr", "BitXor", "BitAnd", "LogOr", "LogAnd", "Min", "Max",
-              "Tup", "List", "Slice", "USum", "Arr", "MV"}
+              "Tup", "List", "Slice", "USum", "Arr", "MV", "UNode"}
 BinKinds  == {"Quotient", "FloorDiv", "Remainder", "Power", "LShift", "RShift", "Sub", "Cmp"}
 UnKinds   == {"BitNot", "LogNot", "Look", "CSE", "Deriv"}
 \* containers that a rebuilding traversal has to copy even when nothing changed
@@ -48,6 +51,7 @@ NaNE           == [t |-> "NaN", id |-> 0]
 StrE(s)        == [t |-> "Str", id |-> 0, s |-> s]
 ULeaf          == [t |-> "ULeaf", id |-> 0]
 UVar(name)     == [t |-> "UVar", id |-> 0, name |-> name]
+UN(u, c)       == [t |-> "UNode", id |-> 0, u |-> u, c |-> c]
 NoneE          == [t |-> "None"]
 Hole           == [t |-> "Hole"]
 
@@ -128,6 +132,8 @@ ZeroIds(e) == IF ~IsNode(e) THEN e
 Tab(tree) == LET p == Pre(tree) IN
              MkSeq(Len(p), LAMBDA i : LET ks == WKids(p[i]) IN MkSeq(Len(ks), LAMBDA j : ks[j].id))
 KindTab(tree) == LET p == Pre(tree) IN MkSeq(Len(p), LAMBDA i : p[i].t)
+\* UTab[i] = number of the user node class of node i (0: not an instance of one)
+UTab(tree) == LET p == Pre(tree) IN MkSeq(Len(p), LAMBDA i : IF p[i].t = "UNode" THEN p[i].u ELSE 0)
 
 \* ---- Python equality classes of subtrees (what a memoising mapper cannot tell apart):
 \* constants compare by value (1 == 1.0 == True), occurrence numbers do not matter
